@@ -779,6 +779,263 @@ def rule_algebra(chk, pyk):
     chk.floor('algebraic sibling obligations', n, 40)
 
 
+SQ = 'SQRTPI'
+
+
+def pi_pow(k):
+    """pi ** (k/2) as a Laurent monomial in sqrt(pi)"""
+    return Poly.const(1) if k == 0 else Poly({((SQ, k),): Fraction(1)})
+
+
+def gamma_half(m):
+    """Gamma(m/2) for a positive integer m, as a Laurent polynomial in sqrt(pi)"""
+    if m == 1:
+        return pi_pow(1)
+    if m == 2:
+        return Poly.const(1)
+    return gamma_half(m - 2) * Poly.const(Fraction(m - 2, 2))
+
+
+def fac_of(cls, dim):
+    """self.fac as set by __init__ for this dim: a Laurent polynomial in sqrt(pi) (None when not of that form)"""
+    init = M.methods(cls).get('__init__')
+    consts = {'M_1_PI': pi_pow(-2), 'M_2_SQRTPI': pi_pow(-1) * Poly.const(2), 'pi': pi_pow(2)}
+    val = [None]
+
+    def ev(e):
+        if isinstance(e, ast.Constant) and isinstance(e.value, (int, float)):
+            return Poly.const(Fraction(e.value).limit_denominator(10 ** 12))
+        if isinstance(e, ast.Name) and e.id in consts:
+            return consts[e.id]
+        if isinstance(e, ast.Attribute) and compact(e) == 'self.fac' and val[0] is not None:
+            return val[0]
+        if isinstance(e, ast.BinOp) and isinstance(e.op, (ast.Mult, ast.Div, ast.Add, ast.Sub)):
+            a, b = ev(e.left), ev(e.right)
+            if isinstance(e.op, ast.Mult):
+                return a * b
+            if isinstance(e.op, ast.Add):
+                return a + b
+            if isinstance(e.op, ast.Sub):
+                return a - b
+            if b.is_const() and not b.is_zero():
+                return a * Poly.const(1 / b.const_value())
+        raise ValueError(compact(e))
+
+    def truth(t):
+        if isinstance(t, ast.Compare) and len(t.ops) == 1 and compact(t.left) in ('dim', 'self.dim') and isinstance(t.comparators[0], ast.Constant):
+            c = t.comparators[0].value
+            return {ast.Eq: dim == c, ast.NotEq: dim != c, ast.Gt: dim > c, ast.GtE: dim >= c, ast.Lt: dim < c, ast.LtE: dim <= c}[type(t.ops[0])]
+        raise ValueError(compact(t))
+
+    def run(stmts):
+        for s_ in stmts:
+            if isinstance(s_, ast.If):
+                run(s_.body if truth(s_.test) else s_.orelse)
+            elif isinstance(s_, ast.Assign) and compact(s_.targets[0]) == 'self.fac':
+                val[0] = ev(s_.value)
+            elif isinstance(s_, ast.AugAssign) and compact(s_.target) == 'self.fac' and isinstance(s_.op, ast.Mult):
+                val[0] = val[0] * ev(s_.value)
+    run(init.body)
+    return val[0]
+
+
+def interval_of(qc, rs):
+    lo, hi = 0.0, None
+    for t, v in qc:
+        c = float(t[2:].lstrip('='))
+        gt = t[1] == '>'
+        if gt == v:
+            lo = max(lo, c)
+        else:
+            hi = c if hi is None else min(hi, c)
+    return lo, hi
+
+
+def rule_normalisation(chk, pyk):
+    """integral of W over space = 1 for every class and supported dimension: exact integration of the polynomial pieces (times q^(d-1), surface of the unit sphere),
+    Gaussian moments in closed form for the exponential family (over all space: the tail beyond the cut-off is the truncation the property allows)"""
+    fresh = ast.parse(M.read(KER))
+    classes = dict((c.name, c) for c in kernel_classes(fresh))
+    n = 0
+    for name, cls in sorted(classes.items()):
+        ms = M.methods(cls)
+        rs = radius_scale_of(cls)
+        try:
+            kq = {}
+            for conds, env in pieces(ms['kernel']):
+                kq[qkey(conds)] = env.get('<return>')
+        except (ValueError, KeyError) as e:
+            chk.undecided('integrates-to-one', name, node=cls, file=KER, func=name, detail='piece extraction failed: %s' % e)
+            continue
+        for dim in supported_dims(M.find_class(M.py(KER), name)):
+            inst = '%s[dim=%d]' % (name, dim)
+            try:
+                fac = fac_of(cls, dim)
+            except ValueError as e:
+                fac = None
+            if fac is None:
+                chk.undecided('integrates-to-one', inst, node=cls, file=KER, func=name + '.__init__', detail='normalising factor is not a closed form in pi')
+                continue
+            total = Poly()
+            okform = True
+            for qc, e in kq.items():
+                pk = to_poly(e) if e is not None else None
+                if pk is None:
+                    okform = False
+                    break
+                if pk.is_zero():
+                    continue
+                g = pk.subs({'FAC': Poly.const(1)})
+                exps = [a for a in g.atoms() if a.startswith('EXP{')]
+                lo, hi = interval_of(qc, rs)
+                if not exps:
+                    if hi is None or set(g.atoms()) - set(['q']):
+                        okform = False
+                        break
+                    # sum_k c_k q^(k+d-1) integrated exactly between the rational knots
+                    a_, b_ = Fraction(lo).limit_denominator(1000), Fraction(hi).limit_denominator(1000)
+                    for mono, c in g.t.items():
+                        k = dict(mono).get('q', 0) + dim
+                        total = total + Poly.const(c * (b_ ** k - a_ ** k) / k)
+                else:
+                    if exps != ['EXP{-q^2}'] and exps != ['EXP{-1*q^2}']:
+                        inner = to_poly(ast.parse(exps[0][4:-1].replace('^', '**'), mode='eval').body)
+                        if len(exps) != 1 or inner is None or not (inner + Poly.var('q') * Poly.var('q')).is_zero():
+                            okform = False
+                            break
+                    rest = g.subs({exps[0]: Poly.const(1)})
+                    if set(rest.atoms()) - set(['q', 'DIM']):
+                        okform = False
+                        break
+                    rest = rest.subs({'DIM': Poly.const(dim)})
+                    # int_0^inf q^m exp(-q^2) dq = Gamma((m+1)/2)/2
+                    for mono, c in rest.t.items():
+                        m_ = dict(mono).get('q', 0) + dim - 1
+                        total = total + gamma_half(m_ + 1) * Poly.const(Fraction(c) / 2)
+            if not okform:
+                chk.undecided('integrates-to-one', inst, node=ms['kernel'], file=KER, func=name + '.kernel', detail='kernel piece is neither polynomial in q nor (polynomial) * exp(-q^2)')
+                continue
+            surface = gamma_half(dim)           # S_d = 2 pi^(d/2) / Gamma(d/2)
+            lhs = fac * total * pi_pow(dim) * Poly.const(2)
+            n += 1
+            ok = (lhs - surface).is_zero()
+            chk.decide(ok, 'integrates-to-one', inst, node=ms['kernel'], file=KER, func=name,
+                       detail_bad='fac * S_%d * int W(q) q^%d dq = %s / Gamma(%d/2)=%s, not 1: the kernel does not integrate to one in %dD (normalising constant or a piece coefficient is off)'
+                                  % (dim, dim - 1, lhs, dim, surface, dim), detail_ok='exact: fac_%d * S_%d * integral = 1' % (dim, dim))
+    chk.floor('kernel x dimension normalisations', n, 18)
+
+
+# -- exact sign of a univariate polynomial on an interval (Sturm sequences over the rationals) --------------------------------
+def upoly(p):
+    """coefficient list [c0, c1, ...] of a Poly in q only (None otherwise)"""
+    out = {}
+    for mono, c in p.t.items():
+        d = dict(mono)
+        if set(d) - set(['q']):
+            return None
+        out[d.get('q', 0)] = Fraction(c)
+    n = max(out) if out else 0
+    return [out.get(k, Fraction(0)) for k in range(n + 1)]
+
+
+def utrim(a):
+    a = list(a)
+    while a and a[-1] == 0:
+        a.pop()
+    return a
+
+
+def urem(a, b):
+    a, b = utrim(a), utrim(b)
+    while len(a) >= len(b) and a:
+        f = a[-1] / b[-1]
+        sh = len(a) - len(b)
+        for i, c in enumerate(b):
+            a[i + sh] -= f * c
+        a = utrim(a)
+    return a
+
+
+def ueval(a, x):
+    r = Fraction(0)
+    for c in reversed(a):
+        r = r * x + c
+    return r
+
+
+def roots_in(a, lo, hi):
+    """number of distinct real roots of a in the open interval (lo, hi); endpoints that are roots are divided out first"""
+    a = utrim(a)
+    if not a:
+        return None
+    for x in (lo, hi):
+        while len(a) > 1 and ueval(a, x) == 0:
+            # divide by (q - x)
+            b = [Fraction(0)] * (len(a) - 1)
+            carry = Fraction(0)
+            for i in range(len(a) - 1, 0, -1):
+                carry = a[i] + carry * x
+                b[i - 1] = carry
+            a = utrim(b)
+    d = [a[i] * i for i in range(1, len(a))]
+    seq = [a, utrim(d)]
+    while seq[-1]:
+        r = urem(seq[-2], seq[-1])
+        seq.append([-c for c in r])
+    seq = [s_ for s_ in seq if s_]
+
+    def changes(x):
+        vals = [ueval(s_, x) for s_ in seq]
+        vals = [v for v in vals if v != 0]
+        return sum(1 for u, w in zip(vals, vals[1:]) if (u > 0) != (w > 0))
+    return changes(lo) - changes(hi)
+
+
+def rule_monotone(chk, pyk):
+    """W is non-increasing in q on every piece (exact: dW/dq has no sign change inside the piece and is <= 0 at its midpoint); with W = 0 at the support edge
+    this also gives W >= 0.  The super-Gaussian is excluded by the property."""
+    fresh = ast.parse(M.read(KER))
+    classes = dict((c.name, c) for c in kernel_classes(fresh))
+    n = 0
+    for name, cls in sorted(classes.items()):
+        if name == 'SuperGaussian':
+            chk.note('SuperGaussian: negative tail by construction, monotonicity / sign not required by the property')
+            continue
+        ms = M.methods(cls)
+        rs = radius_scale_of(cls)
+        try:
+            dq = dict((qkey(c), e.get('<return>')) for c, e in pieces(ms['dwdq']) if not any(t.startswith('rij') and not v for t, v in c))
+        except (ValueError, KeyError) as e:
+            chk.undecided('non-increasing', name, node=cls, file=KER, func=name, detail='piece extraction failed: %s' % e)
+            continue
+        for qc, e in sorted(dq.items()):
+            pd = to_poly(e) if e is not None else None
+            lo, hi = interval_of(qc, rs)
+            lab = ','.join('%s%s' % ('' if v else 'not ', t) for t, v in qc) or 'all q'
+            inst = '%s@%s' % (name, lab)
+            if pd is None:
+                chk.undecided('non-increasing', inst, node=ms['dwdq'], file=KER, func=name + '.dwdq', detail='piece not polynomial')
+                continue
+            if pd.is_zero():
+                continue
+            g = pd.subs({'FAC': Poly.const(1), 'h1': Poly.const(1)})
+            exps = [a for a in g.atoms() if a.startswith('EXP{')]
+            if exps:
+                g = g.subs(dict((a, Poly.const(1)) for a in exps))      # exp(.) > 0 does not change the sign
+            u = upoly(g)
+            if u is None or hi is None:
+                chk.undecided('non-increasing', inst, node=ms['dwdq'], file=KER, func=name + '.dwdq', detail='derivative piece is not a polynomial in q on a bounded interval')
+                continue
+            a_, b_ = Fraction(lo).limit_denominator(1000), Fraction(hi).limit_denominator(1000)
+            k = roots_in(u, a_, b_)
+            mid = ueval(u, (a_ + b_) / 2)
+            n += 1
+            chk.decide(k == 0 and mid <= 0, 'non-increasing', inst, node=ms['dwdq'], file=KER, func=name + '.dwdq',
+                       detail_bad='on %g < q < %g dW/dq (up to the positive factor fac/h) is %s: %s sign change(s) inside, value %s at the midpoint - the kernel is not non-increasing there'
+                                  % (lo, hi, g, k, mid), detail_ok='no root of dW/dq in (%g, %g), negative at the midpoint (Sturm sequence, exact)' % (lo, hi))
+    chk.floor('pieces with exact monotonicity', n, 12)
+
+
 def main(chk):
     chk.explanation = ('(a) translation validation of the committed compiled kernels against kernels.py (statement-level AST equality of every '
                        'method, attribute coverage, wrappers, template class list); (b) dimensional type inference (powers of length) of '
@@ -792,9 +1049,11 @@ def main(chk):
     rule_r0(chk, pyk)
     rule_gradient_form(chk, pyk)
     rule_algebra(chk, pyk)
+    rule_normalisation(chk, pyk)
+    rule_monotone(chk, pyk)
     chk.extra['programs'] = len(pyk) * len(METHODS)
     chk.extra['disagreements_checked'] = len([o for o in chk.obs if o.rule == 'compiled-twin'])
-    chk.assume('normalisation constants (integral = 1), sign and monotonicity are numeric facts and are not decided')
+    chk.assume('W >= 0 follows from non-increasing + zero at the support edge (both decided) for the polynomial kernels; for the Gaussian family the integral is taken over all space (the tail beyond the cut-off is neglected, as the property allows)')
     chk.assume('compyle generated c_kernels.pyx; only its agreement with kernels.py is checked, not compyle itself')
 
 
